@@ -354,6 +354,30 @@ example : bhMantissa f64Consts [0x39,0x30,0x30,0x37,0x31,0x39,0x39,0x32,0x35,0x3
     bhScaled f64Consts [0x39,0x30,0x30,0x37,0x31,0x39,0x39,0x32,0x35,0x34,0x37,0x34,0x30,0x39,0x39,0x33] [] 0 = 0 := by
   decide +kernel
 
+open SJ.Spec.Ieee SJ.Proofs.LexSplit SJ.Proofs.LexRound SJ.Proofs.LexBh SJ.Proofs.LexFast SJ.Proofs.LexCorrect in
+/-- **c07_bhcomp_limbs_exact.** `c07_bhcomp_exact` without the `Bigint = Nat` abstraction: under its hypotheses, and
+    with `scaled_exponent` in the range where `bhcomp` is actually reached, `bhcomp.rs` *run on limb vectors through
+    `math.rs`* returns (no panic) the correctly rounded value. -/
+theorem c07_bhcomp_limbs_exact (single : Bool) (integer fraction : Bytes) (hdi : IsDigits integer) (hdf : IsDigits fraction)
+    (hhead : ∀ d r, integer = d :: r → d ≠ 0x30) (hpos : 0 < natOfDigits (integer ++ fraction)) (exponent : Int)
+    (hexp1 : -(2 ^ 30 : Int) < exponent) (hexp2 : exponent < 2 ^ 30)
+    (hlen : integer.length + fraction.length < 2 ^ 30) (b : Nat) (hb : b < (fmtOf single).infBits)
+    (hz : (fc single).maxDigits - 1 < (sigDigits integer fraction).length →
+      0 < natOfDigits ((sigDigits integer fraction).drop ((fc single).maxDigits - 1)))
+    (hnear : NearBelow (fmtOf single) b (dNum (fmtOf single) (natOfDigits (integer ++ fraction)) (exponent - fraction.length))
+      (dDen (exponent - fraction.length)))
+    (h1 : -2048 < bhScaled (fc single) integer fraction exponent) (h2 : bhScaled (fc single) integer fraction exponent < 1024) :
+    bhcompL (fc single) b integer fraction exponent =
+      some (roundDec (fmtOf single) (natOfDigits (integer ++ fraction)) (exponent - fraction.length)) := by
+  have hmax : 2 ≤ (fc single).maxDigits := by cases single <;> simp [fc, f32Consts, f64Consts]
+  rw [c07_limbs_total single b integer fraction exponent hdi hdf
+      (bhMantissa_ne_zero (fc single) hmax integer fraction hpos hz) h1 h2,
+    c07_bhcomp_exact single integer fraction hdi hdf hhead hpos exponent hexp1 hexp2 hlen b hb hz hnear]
+
+/-- non-vacuity: the conclusion on `9007199254740993` (a tie between `2^53` and `2^53 + 2`), evaluated in the kernel -/
+example : bhcompL (fc false) 0x4340000000000000 [0x39,0x30,0x30,0x37,0x31,0x39,0x39,0x32,0x35,0x34,0x37,0x34,0x30,0x39,0x39,0x33] [] 0 =
+    some (SJ.Proofs.LexBh.roundDec (SJ.Proofs.LexFast.fmtOf false) 9007199254740993 0) := by decide +kernel
+
 /-- **c07_karatsuba_fuel.** The fuel argument of the model's `karatsubaMul` is immaterial above `y.len()` (the Rust
     recursion strictly decreases `y.len()` beyond the cut-off): a `none` at fuel `y.len() + 1` is a panic of the Rust. -/
 theorem c07_karatsuba_fuel (x y : Limbs) (f : Nat) (h : y.length < f) :
